@@ -84,7 +84,26 @@ def _consumer(mv0, sv0, alert=False):
         ac.StateVersion = sv0
         ac.Presence = False
     cm.add_state_containers([_ctx_state(cm, sv0, 'init')])
+    _watch(cm)
     return cm
+
+
+SIGNALS = ('metrics_by_handle', 'context_by_handle', 'alert_by_handle', 'waveform_by_handle')
+KIND_KEY = {0: 'm0', 1: 'pcs0', 2: 'pcs9', 3: 'ac0'}
+
+
+def _watch(cm):
+    """Collect the keys of every '<family>_by_handle' notification the consumer MDIB publishes to the application."""
+    from sdc11073 import observableproperties as properties
+    cm._verif_signalled = []
+    cm._verif_cbs = []
+
+    def cb(value):
+        if value:
+            cm._verif_signalled.extend(sorted(value))
+    for name in SIGNALS:
+        cm._verif_cbs.append(cb)
+        properties.bind(cm, **{name: cb})
 
 
 def _held(cm, kind):
@@ -133,8 +152,10 @@ def _step(cm, orc, tag, kind, mv, sv, val, seq_other, inst_other):
     pre_held = _held(cm, kind)
     pre_all = [_held(cm, kk) for kk in (0, 1, 2, 3)]
     rep, vg, action = _report(cm, kind, mv, sv, val, seq_other, inst_other)
+    del cm._verif_signalled[:]
     k.deliver(cm, rep, action, vg)
     post_held = _held(cm, kind)
+    signalled = KIND_KEY[kind] in cm._verif_signalled
     id_changed = seq_other or inst_other
     orc.check(cm.mdib_version >= pre_mv, tag + ':mdib-version-decreased')
     if pre_held[0]:
@@ -143,17 +164,22 @@ def _step(cm, orc, tag, kind, mv, sv, val, seq_other, inst_other):
         # invalid MDIB (or the report that reveals the id change): nothing may change
         orc.check(cm.mdib_version == pre_mv, tag + ':version-changed-while-invalid')
         orc.check([_held(cm, kk) for kk in (0, 1, 2, 3)] == pre_all, tag + ':content-changed-while-invalid')
+        orc.check(not cm._verif_signalled, tag + ':update-signalled-while-invalid')
         if pre_valid and id_changed:
             orc.check(cm._state == ConsumerMdibState.invalid, tag + ':id-change-not-detected')
     else:
         if mv < pre_mv:
             orc.check(cm.mdib_version == pre_mv and post_held == pre_held, tag + ':stale-mdib-version-applied')
+            orc.check(not cm._verif_signalled, tag + ':stale-report-signalled-as-update')
         elif pre_held[0] and sv <= pre_held[1]:
             orc.check(post_held == pre_held, tag + ':stale-or-duplicate-state-applied')
+            # "changes nothing" includes what the application is told: the state is not announced as updated again
+            orc.check(not signalled, tag + ':stale-or-duplicate-state-signalled-as-updated')
         else:
             # newer MdibVersion (or equal) and newer state: must be taken over exactly
             orc.check(post_held == (True, sv, val if kind != 3 else ('va' if val == 'va' else 'not-va')), tag + ':new-state-not-applied')
             orc.check(cm.mdib_version == mv, tag + ':mdib-version-not-updated')
+            orc.check(signalled, tag + ':applied-state-not-signalled')
         # states not addressed by the report are untouched
         others = [kk for kk in (0, 1, 2, 3) if kk != kind]
         orc.check([_held(cm, kk) for kk in others] == [pre_all[kk] for kk in others], tag + ':unrelated-state-changed')
@@ -383,6 +409,67 @@ def description_report_faults(mod1: int, mod2: int, mv0: int, mv1: int, mv2: int
             with untraced():
                 dangling = [s.DescriptorHandle for s in cm.states.objects if s.DescriptorHandle not in post_handles]
             orc.check(dangling == [], tag + ':state-without-descriptor')
+    except Exception as ex:  # noqa: BLE001
+        return exc_result(orc, ex)
+    return orc.result()
+
+
+def faulty_waveforms(mv0: int, sv0: int, mv1: int, sv1: int, mv2: int, sv2: int) -> str:
+    """
+    Two arbitrary WaveformStream notifications for one real-time sample array (any versions: in order, swapped, duplicates of
+    each other, stale). Besides the per-state obligations, the consumer's waveform buffer - the data the application reads -
+    holds the samples of exactly the notifications that were applied, once each and in the order of application.
+    pre: mv0 >= 0
+    pre: sv0 >= 0
+    pre: mv1 >= 0
+    pre: sv1 >= 0
+    pre: mv2 >= 0
+    pre: sv2 >= 0
+    post: __return__ == 'ok'
+    """
+    orc = Oracle()
+    try:
+        if not _functional_vs_snapshot(mv0, sv0, mv1, sv1) or sv1 == sv0:
+            return 'ok'
+        if not _functional_vs_snapshot(mv0, sv0, mv2, sv2) or sv2 == sv0:
+            return 'ok'
+        if not _functional(mv1, sv1, mv2, sv2):
+            return 'ok'
+        from decimal import Decimal
+        from sdc11073.mdib import descriptorcontainers as dc
+        rtd = dc.RealTimeSampleArrayMetricDescriptorContainer('rt0', 'ch0')
+        rtd.Resolution = Decimal('0.1')
+        rtd.SamplePeriod = 0.01
+        cm = k.mk_consumer(mv0, containers=[*_small_containers(False), rtd])
+        st0 = cm.states.descriptor_handle.get_one('rt0')
+        st0.StateVersion = sv0
+        _watch(cm)
+        expected = []
+        for tag, mv, sv in (('w1', mv1, sv1), ('w2', mv2, sv2)):
+            samples = [Decimal(1), Decimal(2)] if sv == sv1 else [Decimal(3), Decimal(4)]      # content = f(StateVersion)
+            st = cm.data_model.get_state_class_for_descriptor(rtd)(rtd)
+            st.StateVersion = sv
+            st.mk_metric_value()
+            st.MetricValue.Samples = samples
+            st.MetricValue.DeterminationTime = 1700000000.0
+            pre_mv = cm.mdib_version
+            held = cm.states.descriptor_handle.get_one('rt0')
+            pre = (held.StateVersion, None if held.MetricValue is None else list(held.MetricValue.Samples))
+            del cm._verif_signalled[:]
+            cm.process_incoming_waveform_states(MdibVersionGroup(mv, k.SEQ, 1), [st])
+            held = cm.states.descriptor_handle.get_one('rt0')
+            post = (held.StateVersion, None if held.MetricValue is None else list(held.MetricValue.Samples))
+            orc.check(cm.mdib_version >= pre_mv and post[0] >= pre[0], tag + ':version-decreased')
+            if mv < pre_mv or sv <= pre[0]:
+                orc.check(post == pre, tag + ':stale-or-duplicate-waveform-applied')
+                orc.check('rt0' not in cm._verif_signalled, tag + ':stale-or-duplicate-waveform-signalled-as-updated')
+            else:
+                orc.check(post == (sv, samples), tag + ':new-waveform-not-applied')
+                expected.extend(samples)
+            buf = cm.rt_buffers.get('rt0')
+            got = [] if buf is None else [c.value for c in buf.rt_data]
+            orc.check(got == expected, tag + ':waveform-buffer-differs-from-applied-notifications')
+        orc.check(_indices_ok(cm), 'index!=scan')
     except Exception as ex:  # noqa: BLE001
         return exc_result(orc, ex)
     return orc.result()
